@@ -53,6 +53,12 @@ def config(draw):
         n_masses=draw(st.sampled_from([0, 1])),
         compressible=draw(st.booleans()),
         npts=npts,
+        # chordwise location of the tube spar (a documented surface key); the ends of the range are valid
+        fem_origin=draw(st.sampled_from([0.35, 0.35, 0.0, 1.0, 0.5, 0.2])),
+        # AerostructPoint(rotational=True): angular velocity (rad/s) about a user-given centre of rotation
+        rot=draw(st.one_of(st.none(), st.none(), st.none(), st.fixed_dictionaries(dict(
+            omega=st.lists(S.fl(-0.2, 0.2, 0.05), min_size=3, max_size=3),
+            cg=st.lists(S.fl(-5.0, 5.0, 1.0), min_size=3, max_size=3))))),
         solver0=draw(st.tuples(st.sampled_from(["nlbgs_aitken", "nlbgs", "newton"]),
                                st.sampled_from(["direct", "lbgs", "krylov"])).map(list)),
         points=draw(st.lists(st.fixed_dictionaries(dict(
@@ -84,7 +90,18 @@ def _surface(cfg, E_factor=1.0):
     c = float(np.max(mesh[-1, :, 0] - mesh[0, :, 0]))
     s["E"] = s["E"] * max(1.0, (b / (8.0 * c)) ** 3) * E_factor
     s["G"] = 0.4 * s["E"]
+    if cfg["model"] == "tube":
+        s["fem_origin"] = float(cfg.get("fem_origin", 0.35))
     return s, b
+
+
+def _spar_fraction(surface):
+    """independent statement of the normalised chordwise location of the structural axis"""
+    if surface["fem_model_type"] == "tube":
+        return float(surface["fem_origin"])
+    x, yu, yl = surface["data_x_upper"], surface["data_y_upper"], surface["data_y_lower"]
+    h0, h1 = yu[0] - yl[0], yu[-1] - yl[-1]
+    return float((x[0] * h0 + x[-1] * h1) / (h0 + h1))
 
 
 def _mass_flow(cfg, b):
@@ -106,6 +123,10 @@ class Interp:
                 self.labels.append(k)
         if cfg["n_masses"]:
             self.labels.append("point_mass")
+        if cfg["model"] == "tube":
+            self.labels.append("fem_origin=%g" % cfg.get("fem_origin", 0.35))
+        if cfg.get("rot"):
+            self.labels.append("rotational")
         self.residuals = {}
         self.surface, self.b = _surface(cfg)
         self.solver = list(cfg.get("solver0", ["nlbgs_aitken", "direct"]))
@@ -121,7 +142,7 @@ class Interp:
         cfg = self.cfg
         flows = [dict() for _ in range(cfg["npts"])]
         p = aerostruct_problem([self.surface], _mass_flow(cfg, self.b), npts=cfg["npts"], compressible=cfg["compressible"],
-                               flows=flows)
+                               flows=flows, rotational=bool(cfg.get("rot")))
         nl, lin = solver
         for i in range(cfg["npts"]):
             c = getattr(p.model, "AS_point_%d" % i).coupled
@@ -158,6 +179,11 @@ class Interp:
             prob.set_val("Mach_number_%d" % i, f["Mach"])
             prob.set_val("load_factor_%d" % i, f["load_factor"])
             prob.set_val("speed_of_sound_%d" % i, f["v"] / f["Mach"])
+        if self.cfg.get("rot"):
+            # the rotation inputs of the coupled aerodynamic states are not promoted by AerostructPoint: absolute names
+            for i in range(self.cfg["npts"]):
+                prob.set_val("AS_point_%d.coupled.aero_states.omega" % i, np.array(self.cfg["rot"]["omega"], float), units="rad/s")
+                prob.set_val("AS_point_%d.coupled.aero_states.cg" % i, np.array(self.cfg["rot"]["cg"], float), units="m")
         prob.set_val("wing.twist_cp", pt["twist"] * np.ones(len(self.surface["twist_cp"])))
         if self.cfg["model"] == "tube":
             prob.set_val("wing.thickness_cp", self.surface["thickness_cp"] * pt["thick"])
@@ -215,8 +241,10 @@ class Interp:
         sym = cfg["mesh"]["kind"] == "left"
         # aero on the converged deformed mesh
         sa = aero_surface("wing", def_mesh, sym)
-        pa = aero_direct([sa], dict(alpha=f["alpha"], v=f["v"], rho=f["rho"], Mach=f["Mach"], beta=0.0),
-                         compressible=cfg["compressible"])
+        fa = dict(alpha=f["alpha"], v=f["v"], rho=f["rho"], Mach=f["Mach"], beta=0.0)
+        if cfg.get("rot"):
+            fa.update(omega=cfg["rot"]["omega"], cg=cfg["rot"]["cg"])
+        pa = aero_direct([sa], fa, compressible=cfg["compressible"])
         pa.run_model()
         fs = float(np.max(np.abs(secf)))
         out.close("consistency/aero_on_def_mesh", pa.get_val("aero_point_0.aero_states.wing_sec_forces"), secf, rtol=self.tol,
@@ -232,6 +260,12 @@ class Interp:
         pl.set_val("sec_forces", secf)
         pl.run_model()
         out.close("consistency/load_transfer", pl.get_val("loads"), loads, rtol=self.tol)
+        # ... and, from first principles, the nodal loads on the displaced structural axis are statically equivalent to
+        # the panel forces acting at the quarter-chord midpoints of the converged deformed mesh
+        from props.c11 import check_conservation
+
+        check_conservation(out, "consistency/static_equivalence/", def_mesh, secf, np.zeros(3), _spar_fraction(self.surface),
+                           loads=loads)
         # structure under these loads
         extra = {}
         if cfg["n_masses"]:
